@@ -43,8 +43,115 @@ def E(t):
   return U.E(t)
 
 
+def duplicate_identity(ctx, rule):
+  """Location-independent: get_key_signatures / get_time_signatures drop a signature only when the *same signature at the same
+  time* was already collected (several parts state it together).  Whatever the membership test is made on - the signature object
+  (then its class's __eq__ decides) or a key built from its fields - the identity must include the time position; otherwise a
+  later return to an earlier key or metre is taken for a duplicate and never reported."""
+  for meth, cls in (('get_key_signatures', 'KeySignature'), ('get_time_signatures', 'TimeSignature')):
+    fi = ctx.func('musicxml_parser:MusicXMLDocument.' + meth)
+    fn = fi.node
+    ci = ctx.cls('musicxml_parser:' + cls)
+    eq = ci.methods.get('__eq__')
+    eq_ok = eq is not None and any(isinstance(c, ast.Compare) and isinstance(c.ops[0], ast.Eq) and
+                                   sorted([norm_text(c.left), norm_text(c.comparators[0])]) == sorted(['self.time_position', '%s.time_position' % eq.params()[1]])
+                                   for c in ast.walk(eq.node)) if eq is not None else False
+    n = 0
+    for c in ast.walk(fn):
+      if not (isinstance(c, ast.Compare) and len(c.ops) == 1 and isinstance(c.ops[0], (ast.In, ast.NotIn))):
+        continue
+      n += 1
+      left = U.expand_locals(fn, c.left, at=c)
+      cons = '%s: a duplicate is the same signature at the same time' % meth
+      if isinstance(left, ast.Tuple):
+        fields = [e.attr for e in left.elts if isinstance(e, ast.Attribute)]
+        if 'time_position' in fields:
+          ctx.ob(rule, fi, c, True, 'the membership key %s includes the time position' % norm_text(left), construct=cons)
+        elif len(fields) == len(left.elts):
+          ctx.ob(rule, fi, c, False, 'the membership key %s leaves out time_position: a signature equal to one declared anywhere earlier in the score counts as a duplicate, so a piece '
+                 'that returns to an earlier %s loses the later change' % (norm_text(left), 'key' if cls == 'KeySignature' else 'metre'), construct=cons, definite=True)
+        else:
+          why = 'cannot classify: membership key %s' % norm_text(left)
+          ctx.ob(rule, fi, c, False, why, construct=cons, unknown=why)
+      elif isinstance(left, (ast.Attribute, ast.Name)):
+        if eq is None:
+          why = 'cannot classify: %s has no __eq__; membership of %s is by object identity' % (cls, norm_text(left))
+          ctx.ob(rule, fi, c, False, why, construct=cons, unknown=why)
+        else:
+          ctx.ob(rule, eq, eq.node, eq_ok, 'membership of %s is decided by %s.__eq__, which compares time_position' % (norm_text(left), cls) if eq_ok else
+                 '%s.__eq__ does not compare time_position, and %s uses it to drop duplicates: a later return to an earlier signature is dropped' % (cls, meth),
+                 construct=cons, definite=not eq_ok)
+      else:
+        why = 'cannot classify: membership test on %s' % norm_text(left)
+        ctx.ob(rule, fi, c, False, why, construct=cons, unknown=why)
+    if n == 0:
+      why = 'cannot classify: %s has no membership test; how duplicates are recognised is not known' % meth
+      ctx.ob(rule, fi, fn, False, why, construct='%s: a duplicate is the same signature at the same time' % meth, unknown=why)
+
+
+def degree_subtract(ctx, rule):
+  """Location-independent, path-wise with a string scenario: for <degree-type>subtract</degree-type> the modification string is
+  'no' + the degree, whatever <degree-alter> says ("alter should be irrelevant when removing a scale degree").  Every path of
+  ChordSymbol._parse_degree that is feasible when the type text is 'subtract' is read (sa.pathval, statements it does not model are
+  forgotten), and the pieces of the returned concatenation are evaluated (sa.strscen): all but the str(<degree>) piece must be
+  constants that join to 'no'."""
+  from sa import pathval, strscen
+  fi = ctx.func('musicxml_parser:ChordSymbol._parse_degree')
+  cons = 'degree-type subtract gives (no<degree>) regardless of the alteration'
+  try:
+    ps = pathval.paths(fi.node.body, opaque=True)
+  except pathval.PathError as e:
+    why = 'cannot classify: %s' % e
+    ctx.ob(rule, fi, fi.node, False, why, construct=cons, unknown=why)
+    return
+  KINDS = ('add', 'subtract', 'alter')
+  atoms = set()
+  for conds, _env, _end in ps:
+    for t, _p in conds:
+      for c in ast.walk(t):
+        if isinstance(c, ast.Compare) and len(c.ops) == 1:
+          for a, b in ((c.left, c.comparators[0]), (c.comparators[0], c.left)):
+            if isinstance(b, ast.Constant) and b.value in KINDS and not isinstance(a, ast.Constant):
+              atoms.add(norm_text(a))
+  if len(atoms) != 1:
+    why = 'cannot classify: the expression holding the degree type was not identified (%s)' % sorted(atoms)
+    ctx.ob(rule, fi, fi.node, False, why, construct=cons, unknown=why)
+    return
+  atom = atoms.pop()
+  consts = strscen.Consts(fi)
+  env = {atom: 'subtract'}
+  n = 0
+  for conds, penv, end in ps:
+    if end != 'return' or pathval.RETURN not in penv:
+      continue
+    if strscen.tv_all(conds, env, consts) is False:
+      continue
+    n += 1
+    parts = strscen.concat_parts(penv[pathval.RETURN])
+    fixed, loose = [], []
+    for part in parts:
+      if isinstance(part, ast.Call) and norm_text(part.func) == 'str':
+        continue
+      v = strscen.val(part, env, consts)
+      (fixed if isinstance(v, str) else loose).append(v if isinstance(v, str) else part)
+    path = ' and '.join(('' if p else 'not ') + norm_text(t) for t, p in conds if strscen.tv(t, env, consts) is None) or 'always'
+    if loose:
+      ctx.ob(rule, fi, fi.node, False, 'for degree type subtract (when %s) the result contains %s, which is not fixed by the type: the removed degree is written with its alteration '
+             '(and %s), e.g. (b5) instead of (no5) - an added/altered degree, not a removed one' % (
+                 path, ', '.join(norm_text(x) for x in loose), ('prefix %r' % ''.join(fixed)) if fixed else 'no prefix'), construct=cons, definite=True)
+    elif ''.join(fixed) != 'no':
+      ctx.ob(rule, fi, fi.node, False, 'for degree type subtract (when %s) the prefix is %r, not \'no\'' % (path, ''.join(fixed)), construct=cons, definite=True)
+    else:
+      ctx.ob(rule, fi, fi.node, True, 'subtract (when %s) returns \'no\' + the degree' % path, construct=cons + ' [%s]' % path)
+  if n == 0:
+    why = 'cannot classify: no return path is feasible for degree type subtract'
+    ctx.ob(rule, fi, fi.node, False, why, construct=cons, unknown=why)
+
+
 def run(ctx):
   # location-independent analyses first: an anchored rule that gives up later must not mask them
+  degree_subtract(ctx, 'DEGREE/subtract-is-no')
+  duplicate_identity(ctx, 'DUP/identity-includes-time')
   schema_navigation(ctx)
   part_state(ctx)
   zip_names(ctx)
